@@ -79,6 +79,9 @@ func c12Gen(r *rand.Rand, id int) c12Case {
 		}
 		o.Key = r.Intn(nkeys)
 		o.Val = val
+		if o.Val%7 == 3 {
+			o.Val = 3 // 3 is the history's name for the nil interface value (stored as nil below)
+		}
 		val++
 		if c.TTL == int64(20*time.Millisecond) && r.Intn(100) < 12 {
 			o.Sleep = int64(30 * time.Millisecond)
@@ -111,12 +114,20 @@ func c12Run(c *c12Case) (ok bool) {
 		t0 := time.Since(start)
 		switch o.Op {
 		case "put":
-			lc.Put(key, o.Val)
+			if o.Val == 3 { // the nil interface value is a value like any other
+				lc.Put(key, nil)
+			} else {
+				lc.Put(key, o.Val)
+			}
 		case "get":
 			v, f := lc.Get(key)
 			o.Found = f
 			if f {
-				o.Ret = int64(v.(int))
+				if v == nil {
+					o.Ret = 3
+				} else {
+					o.Ret = int64(v.(int))
+				}
 			}
 		case "delete":
 			o.Bool = lc.Delete(key)
